@@ -292,6 +292,16 @@ def types_for(kind):
 threads = st.sampled_from([1, 1, 2, 3, 4, 8, 16])
 
 
+def word_family(word, seed, n=5, length=40):
+    """a protein family in which one member's residue text spells `word` (upper case), once early and once late"""
+    rnd = random.Random(seed)
+    fam = expand_family(rnd.randrange(2 ** 32), AA, n, length, 0.15, 0.05, 0.0)
+    w = "".join(c for c in word.upper() if c.isalpha())
+    fam[0] = fam[0][:5] + w + fam[0][5:]
+    fam[n - 2] = fam[n - 2] + w
+    return fam
+
+
 # how one and the same set of records is laid out in a FASTA file (no property depends on it: C04)
 layouts = st.fixed_dictionaries({"width": st.sampled_from([0, 0, 60, 80, 7, 1]), "eol": st.sampled_from(["\n", "\n", "\n", "\r\n"]),
                                  "final_eol": st.sampled_from([True, True, False]), "lead_blank": st.sampled_from([0, 0, 0, 1, 6])})
